@@ -31,7 +31,7 @@ def model_check(ev, work, frames, maxops, by_path, expect_violation=False, label
         for a in ("BeginWrite", "DoBeginAppend", "BeginWrg", "BeginOverwrite", "BeginRemove", "DoMkdir",
                   "DoOpenW", "DoWrite", "DoClose", "DoMemAppend", "DoMemSort", "DoMemRemove", "DoRemove",
                   "DoSortNames", "DoRename", "DoMemPath", "Return"):
-            if not res.coverage.get(a):
+            if not res.covered(a):
                 raise T.TLCError("vacuity: action %s never taken" % a)
         ev.add_tlc("Dataset, repaired variant: contract invariants hold (%s, %d operations)" % (frames, maxops), res)
     return res
@@ -56,6 +56,10 @@ def _run(ev, work, thorough):
     model_check(ev, work, "FramesSmall", 3, False, expect_violation=True, label="mut")
     hists, res = D.export_histories(work, frames="FramesTiny", maxops=3)
     ev.add_tlc("DatasetExport: history tree (FramesTiny, 3 operations)", res, histories=len(hists))
+    hl, resl = D.export_histories(work, frames="FramesLong", maxops=2)
+    hl = [h for h in hl if len(h[0]["groups"]) >= 11]
+    ev.add_tlc("DatasetExport: histories starting with an 11-row-group write (part ids reach 10)", resl, histories=len(hl))
+    hists = hists + hl
     if thorough:
         h2, res2 = D.export_histories(work, frames="FramesSmall", maxops=3)
         ev.add_tlc("DatasetExport: history tree (FramesSmall, 3 operations)", res2, histories=len(h2))
